@@ -21,6 +21,7 @@ type opPathResult struct {
 	panics  bool
 	ret     *ssa.Return
 	decided bool
+	blocks  []*ssa.BasicBlock // the blocks of the path, in order
 }
 
 func opPath(fn *ssa.Function, isOp func(v ssa.Value) bool, k int64) opPathResult {
@@ -102,6 +103,7 @@ func opPath(fn *ssa.Function, isOp func(v ssa.Value) bool, k int64) opPathResult
 	phiVal := map[*ssa.Phi]ssa.Value{}
 	for b != nil && steps < 4096 {
 		steps++
+		res.blocks = append(res.blocks, b)
 		for _, in := range b.Instrs {
 			switch x := in.(type) {
 			case *ssa.Phi:
@@ -169,4 +171,142 @@ func isLoadOfField(name string) func(v ssa.Value) bool {
 		fa, ok := u.X.(*ssa.FieldAddr)
 		return ok && fieldNameOf(fa) == name
 	}
+}
+
+// opReach: the blocks a function can execute when the opcode has the value k: branches
+// on the opcode are decided, every other branch is explored both ways.
+func opReach(fn *ssa.Function, isOp func(v ssa.Value) bool, k int64) []*ssa.BasicBlock {
+	if len(fn.Blocks) == 0 {
+		return nil
+	}
+	strip := func(v ssa.Value) ssa.Value {
+		for {
+			switch x := v.(type) {
+			case *ssa.Convert:
+				v = x.X
+				continue
+			case *ssa.ChangeType:
+				v = x.X
+				continue
+			}
+			return v
+		}
+	}
+	decide := func(v ssa.Value) (bool, bool) {
+		neg := false
+		for {
+			if u, ok := v.(*ssa.UnOp); ok && u.Op == token.NOT {
+				v, neg = u.X, !neg
+				continue
+			}
+			break
+		}
+		bo, ok := v.(*ssa.BinOp)
+		if !ok {
+			return false, false
+		}
+		var a, b int64
+		var oka, okb bool
+		if isOp(strip(bo.X)) {
+			a, oka = k, true
+		} else if c, ok := strip(bo.X).(*ssa.Const); ok && c.Value != nil && c.Value.Kind() == constant.Int {
+			a, oka = constant.Int64Val(c.Value)
+		}
+		if isOp(strip(bo.Y)) {
+			b, okb = k, true
+		} else if c, ok := strip(bo.Y).(*ssa.Const); ok && c.Value != nil && c.Value.Kind() == constant.Int {
+			b, okb = constant.Int64Val(c.Value)
+		}
+		if !oka || !okb || !(isOp(strip(bo.X)) || isOp(strip(bo.Y))) {
+			return false, false
+		}
+		var r bool
+		switch bo.Op {
+		case token.EQL:
+			r = a == b
+		case token.NEQ:
+			r = a != b
+		case token.LSS:
+			r = a < b
+		case token.LEQ:
+			r = a <= b
+		case token.GTR:
+			r = a > b
+		case token.GEQ:
+			r = a >= b
+		default:
+			return false, false
+		}
+		return r != neg, true
+	}
+	// paths are enumerated (loops cut at the first revisit on a path) so that a boolean
+	// computed by && / || into a variable, which go/ssa represents as a phi, is known
+	// from the edge the path took
+	seen := map[*ssa.BasicBlock]bool{}
+	var out []*ssa.BasicBlock
+	budget := 200000
+	var walk func(b, prev *ssa.BasicBlock, onPath map[*ssa.BasicBlock]bool, phis map[*ssa.Phi]ssa.Value)
+	walk = func(b, prev *ssa.BasicBlock, onPath map[*ssa.BasicBlock]bool, phis map[*ssa.Phi]ssa.Value) {
+		if budget <= 0 || onPath[b] {
+			return
+		}
+		budget--
+		if !seen[b] {
+			seen[b] = true
+			out = append(out, b)
+		}
+		onPath[b] = true
+		defer delete(onPath, b)
+		var bound []*ssa.Phi
+		for _, in := range b.Instrs {
+			ph, ok := in.(*ssa.Phi)
+			if !ok {
+				break
+			}
+			for i, p := range b.Preds {
+				if p == prev {
+					phis[ph] = ph.Edges[i]
+					bound = append(bound, ph)
+				}
+			}
+		}
+		defer func() {
+			for _, ph := range bound {
+				delete(phis, ph)
+			}
+		}()
+		if iff, ok := b.Instrs[len(b.Instrs)-1].(*ssa.If); ok {
+			cond := ssa.Value(iff.Cond)
+			for d := 0; d < 4; d++ {
+				if ph, ok := cond.(*ssa.Phi); ok {
+					if v, ok := phis[ph]; ok {
+						cond = v
+						continue
+					}
+				}
+				break
+			}
+			if c, ok := cond.(*ssa.Const); ok && c.Value != nil && c.Value.Kind() == constant.Bool {
+				if constant.BoolVal(c.Value) {
+					walk(b.Succs[0], b, onPath, phis)
+				} else {
+					walk(b.Succs[1], b, onPath, phis)
+				}
+				return
+			}
+			if v, ok := decide(cond); ok {
+				if v {
+					walk(b.Succs[0], b, onPath, phis)
+				} else {
+					walk(b.Succs[1], b, onPath, phis)
+				}
+				return
+			}
+		}
+		for _, sc := range b.Succs {
+			walk(sc, b, onPath, phis)
+		}
+	}
+	walk(fn.Blocks[0], nil, map[*ssa.BasicBlock]bool{}, map[*ssa.Phi]ssa.Value{})
+	return out
 }
